@@ -120,15 +120,23 @@ func DistanceLineToLine(line1Start, line1End, line2Start, line2End geom.Coord) f
 		s = (b*e - c*d) / denom
 		t = (a*e - b*d) / denom
 	}
-	switch {
-	case s < 0:
-		return DistancePointToLine(line1Start, line2Start, line2End)
-	case s > 1:
-		return DistancePointToLine(line1End, line2Start, line2End)
-	case t < 0:
-		return DistancePointToLine(line2Start, line1Start, line1End)
-	case t > 1:
-		return DistancePointToLine(line2End, line1Start, line1End)
+	if s < 0 || s > 1 || t < 0 || t > 1 {
+		/**
+		 * The closest approach of the infinite lines lies outside one of the
+		 * segments, so the minimum is attained at an end point of one of them.
+		 * Which end point is not determined by a single parameter (both may be
+		 * out of range), so all four are measured.
+		 */
+		return math.Min(
+			math.Min(
+				DistancePointToLine(line1Start, line2Start, line2End),
+				DistancePointToLine(line1End, line2Start, line2End),
+			),
+			math.Min(
+				DistancePointToLine(line2Start, line1Start, line1End),
+				DistancePointToLine(line2End, line1Start, line1End),
+			),
+		)
 	}
 	/**
 	 * The closest points are in interiors of segments,
